@@ -134,18 +134,24 @@ example :
 
 /-- `no_create_when_stopped` (creation step): when `canCreateTask` is false (kill timestamp
 present — even future — or admission-error annotation) or the refreshed summary is complete,
-`syncCreateTasks` returns the system state untouched: no call at all. -/
+`syncCreateTasks` returns the system state untouched: no call at all.  The Job is returned as it
+is, and the task list is extended only by the UNRECORDED tasks of the pod cache
+(`adoptUnrecordedTasks`: fix 5671da6 for the first case, repair of F23 for the complete summary —
+before it the list was returned as it was and a task created without being recorded was never
+stopped once the Job was complete through other tasks). -/
 theorem no_create_when_stopped (s : Sys) (jo : JobObj) (rj : Job) (tasks : List Task)
     (h : canCreateTask rj = false ∨ (refreshedSummary s rj tasks).complete = true) :
-    (syncCreateTasks s jo rj tasks).1 = s ∧ newCalls s (syncCreateTasks s jo rj tasks).1 = [] := by
+    (syncCreateTasks s jo rj tasks).1 = s ∧ newCalls s (syncCreateTasks s jo rj tasks).1 = [] ∧
+    syncCreateTasks s jo rj tasks = (s, some (rj, adoptUnrecordedTasks s jo tasks)) := by
   obtain ⟨_, _, hoff, hdone, _⟩ := syncCreateTasks_ext s jo rj tasks
-  have hs : (syncCreateTasks s jo rj tasks).1 = s := by
+  have he : syncCreateTasks s jo rj tasks = (s, some (rj, adoptUnrecordedTasks s jo tasks)) := by
     by_cases hcan : canCreateTask rj = true
     · rcases h with h | h
       · rw [hcan] at h; cases h
-      · rw [hdone hcan h]
-    · rw [hoff (by simpa using hcan)]
-  exact ⟨hs, by rw [hs]; exact (Ext.refl s).newCalls⟩
+      · exact hdone hcan h
+    · exact hoff (by simpa using hcan)
+  have hs : (syncCreateTasks s jo rj tasks).1 = s := by rw [he]
+  exact ⟨hs, by rw [hs]; exact (Ext.refl s).newCalls, he⟩
 
 /-- `no_create_when_stopped`: with index `a` at its third failure (`maxAttempts = 3` reached: the
 summary is complete, Failed) nothing is created; and nothing for a Job that is not started. -/
